@@ -22,6 +22,10 @@ enum Step {
     JoinByConnect(usize),
     /// the connection of publisher p fails: 0 = orderly close, 1 = reset, 2 = write error
     Fail(usize, u8),
+    /// the accepted publisher p (it announced the identity "pub<p>") closes its connection and
+    /// at once connects again under the same identity; the application is not in recv, so the socket
+    /// still holds the old connection when the new one is admitted
+    Rejoin(usize),
     /// let the world settle
     Quiesce,
 }
@@ -61,9 +65,16 @@ struct Out {
 }
 
 fn run_world(ctx: &mut Ctx, steps: Vec<Step>, npeers: usize) {
+    run_world_x(ctx, steps, npeers, false)
+}
+/// `in_flight`: the history contains a Rejoin that is not preceded by a quiescent point (the old
+/// connection's handshake may still be running when the new one arrives): every view clause is then
+/// reported under one key, which is the open finding 11.5 in its SUB form
+fn run_world_x(ctx: &mut Ctx, steps: Vec<Step>, npeers: usize, in_flight: bool) {
     // the application does other things between its calls: 0..3 co-operative yields after each
     // step let background handshakes advance into the middle of the history
     let gaps: Vec<u32> = steps.iter().map(|_| ctx.plan(4) as u32).collect();
+    let closes_first = ctx.plan(3) != 0;
     let out = Rc::new(RefCell::new(Out { viol: vec![], done: false, peers: (0..npeers).map(|_| None).collect(), failed: vec![false; npeers], call_errors: 0, kept: Vec::new() }));
     let o2 = out.clone();
     let steps2 = steps.clone();
@@ -84,7 +95,21 @@ fn run_world(ctx: &mut Ctx, steps: Vec<Step>, npeers: usize) {
                 }
                 Step::JoinByAccept(p) => {
                     let Ok(mut peer) = RawPeer::connect(&ep) else { continue };
-                    if peer.hello("PUB", None).await.is_ok() {
+                    if peer.hello("PUB", Some(format!("pub{p}").as_bytes())).await.is_ok() {
+                        o2.borrow_mut().peers[*p] = Some(peer);
+                    }
+                }
+                Step::Rejoin(p) => {
+                    let old = o2.borrow_mut().peers[*p].take();
+                    let Some(old) = old else { continue };
+                    if closes_first {
+                        old.close();
+                    } else {
+                        o2.borrow_mut().kept.push(old);
+                    }
+                    rt::count("probe_publisher_rejoined_under_its_identity");
+                    let Ok(mut peer) = RawPeer::connect(&ep) else { continue };
+                    if peer.hello("PUB", Some(format!("pub{p}").as_bytes())).await.is_ok() {
                         o2.borrow_mut().peers[*p] = Some(peer);
                     }
                 }
@@ -174,7 +199,7 @@ fn run_world(ctx: &mut Ctx, steps: Vec<Step>, npeers: usize) {
         for w in views.windows(2) {
             if w[0].1 != w[1].1 {
                 let any_failed = o.failed.iter().any(|f| *f);
-                let clause = if any_failed { "peers_disagree_after_one_peer_failed" } else if dup { "peers_disagree_after_duplicate_subscribe" } else { "peers_disagree" };
+                let clause = if in_flight { "view_wrong_when_rejoin_overlaps_handshake" } else if any_failed { "peers_disagree_after_one_peer_failed" } else if dup { "peers_disagree_after_duplicate_subscribe" } else { "peers_disagree" };
                 ctx.violation(clause, format!("publishers {} and {} disagree about the subscriptions at quiescence: {:?} vs {:?}; history {:?}", w[0].0, w[1].0, w[0].1, w[1].1, steps));
                 break;
             }
@@ -183,7 +208,7 @@ fn run_world(ctx: &mut Ctx, steps: Vec<Step>, npeers: usize) {
             for (i, v) in &views {
                 if *v != model {
                     let any_failed = o.failed.iter().any(|f| *f);
-                    let clause = if any_failed { "peer_view_wrong_after_one_peer_failed" } else { "peer_view_differs_from_socket" };
+                    let clause = if in_flight { "view_wrong_when_rejoin_overlaps_handshake" } else if any_failed { "peer_view_wrong_after_one_peer_failed" } else { "peer_view_differs_from_socket" };
                     ctx.violation(clause, format!("publisher {i} believes the subscriptions are {:?} but the socket's set is {:?}; history {:?}", v, model, steps));
                     break;
                 }
@@ -248,6 +273,54 @@ fn draw_history(ctx: &mut Ctx, with_fail: bool, with_dup: bool) -> (Vec<Step>, u
     (steps, npeers)
 }
 
+/// a publisher with an announced identity leaves and comes back (or a second connection under its
+/// identity appears while the first is still open) in the middle of a history: the connection that
+/// is live afterwards must be told every later change, like everybody else
+fn rejoin(ctx: &mut Ctx) {
+    rejoin_x(ctx, false)
+}
+/// the same, but the rejoin may come while the first connection's handshake is still in flight
+fn rejoin_in_flight(ctx: &mut Ctx) {
+    rejoin_x(ctx, true)
+}
+fn rejoin_x(ctx: &mut Ctx, in_flight: bool) {
+    world::swarm(ctx, SwarmOpts::default());
+    let (base, n) = draw_history(ctx, false, false);
+    let mut steps = Vec::new();
+    let mut accepted: Vec<usize> = Vec::new();
+    let mut done = false;
+    for st in base {
+        if let Step::JoinByAccept(p) = &st {
+            accepted.push(*p);
+        }
+        let is_call = matches!(st, Step::Subscribe(_) | Step::Unsubscribe(_));
+        if is_call && !done && !accepted.is_empty() && ctx.plan(3) == 0 {
+            // the first connection is fully admitted before it is replaced (the other order is the
+            // open finding 11.5, kept apart in rejoin_in_flight)
+            if !in_flight || ctx.plan_bool() {
+                steps.push(Step::Quiesce);
+            }
+            steps.push(Step::Rejoin(accepted[ctx.plan(accepted.len() as u64) as usize]));
+            if ctx.plan_bool() {
+                steps.push(Step::Quiesce);
+            }
+            done = true;
+        }
+        steps.push(st);
+    }
+    if !done {
+        if let Some(p) = accepted.first() {
+            if !in_flight {
+                steps.push(Step::Quiesce);
+            }
+            steps.push(Step::Rejoin(*p));
+            steps.push(Step::Subscribe(3));
+            steps.push(Step::Unsubscribe(1));
+        }
+    }
+    run_world_x(ctx, steps, n, in_flight);
+}
+
 fn clean(ctx: &mut Ctx) {
     world::swarm(ctx, SwarmOpts::default());
     let (steps, n) = draw_history(ctx, false, false);
@@ -293,12 +366,14 @@ pub fn def() -> PropDef {
     PropDef {
         id: "C13",
         level: "exploration",
-        rule: "one case = a seeded history of subscribe/unsubscribe calls over topics {'', a, ab, b} interleaved with scripted publishers joining by accept (background handshake, concurrent with the following calls) or by connect, quiescent points, and in one stratum one publisher's connection failing (close / reset / write error); join_points enumerates the position of an accept-join among four calls x early publisher present or not; each publisher's inbound tap is folded into topic counts and compared at quiescence; non-trivial = at least two publishers judged; distinct = distinct (plan, schedule, transport) hashes",
+        rule: "one case = a seeded history of subscribe/unsubscribe calls over topics {'', a, ab, b} interleaved with scripted publishers joining by accept (background handshake, concurrent with the following calls) or by connect, quiescent points, and in one stratum one publisher's connection failing (close / reset / write error); rejoin: the same histories with one accepted publisher (announced identity) closing and reconnecting under its identity - or a second connection under it appearing while the first stays open - right before one of the calls, the application never being in recv in between; join_points enumerates the position of an accept-join among four calls x early publisher present or not; each publisher's inbound tap is folded into topic counts and compared at quiescence; non-trivial = at least two publishers judged; distinct = distinct (plan, schedule, transport) hashes",
         assumptions: &["with duplicate subscribes of one topic only agreement between peers is required (the statement does not choose between set and multiset semantics)", "a publisher counts as connected once the socket has written its READY to it"],
         strata: vec![
             Stratum { name: "clean", quick: 120_000, thorough: (1_500_000) * 5, exhaustive: (false, false), run: clean, what: "no topic subscribed twice, no failures: every publisher's view equals the socket's set" },
             Stratum { name: "with_duplicates", quick: 50_000, thorough: (500_000) * 5, exhaustive: (false, false), run: with_duplicates, what: "duplicate subscribes allowed: publishers must agree" },
             Stratum { name: "one_peer_fails", quick: 80_000, thorough: (1_000_000) * 5, exhaustive: (false, false), run: one_peer_fails, what: "one publisher's connection fails; the others must still be updated" },
+            Stratum { name: "rejoin", quick: 60_000, thorough: 2_500_000, exhaustive: (false, false), run: rejoin, what: "a publisher leaves and comes back under its announced identity in the middle of a history (the socket still holds the old connection): the live connection is told every later change" },
+            Stratum { name: "rejoin_in_flight", quick: 12_000, thorough: 300_000, exhaustive: (false, false), run: rejoin_in_flight, what: "the same with the rejoin possibly overlapping the first connection's handshake (open finding 11.5 in its SUB form; one clause)" },
             Stratum { name: "join_points", quick: 60_000, thorough: (500_000) * 5, exhaustive: (false, false), run: join_points, what: "accept-join enumerated at every position among four calls" },
         ],
     }
